@@ -40,6 +40,11 @@ func (r *RoutingTable) lengthOfPartCommandHandler(conn redcon.Conn, cmd redcon.C
 	} else {
 		part = r.primary.PartitionByID(lengthOfPartCmd.PartID)
 	}
+	if part == nil {
+		// The partition id comes straight from the peer.
+		protocol.WriteError(conn, fmt.Errorf("%w: partition id out of range: %d", protocol.ErrInvalidArgument, lengthOfPartCmd.PartID))
+		return
+	}
 
 	conn.WriteInt(part.Length())
 }
